@@ -311,10 +311,12 @@ def check_side_letters(ctx, prog):
                         pass
             for body in prog.bodies(name):
                 for b in body['blocks']:
-                    for s in b['st']:
-                        rv = s.get('rv')
-                        if rv and rv['k'] == 'use' and rv['o'].get('k') == 'val' and rv['o'].get('ty') == '&str' and rv['o'].get('bytes'):
-                            txt = bytes.fromhex(rv['o']['bytes']).decode('utf8', 'replace')
+                    ops = [s['rv']['o'] for s in b['st'] if s.get('rv') and s['rv']['k'] == 'use']
+                    if b['term']['k'] == 'call':
+                        ops += list(b['term'].get('a') or [])      # `matches!(x, "s" | "b")` passes the constants directly to str::eq
+                    for o in ops:
+                        if o.get('k') == 'val' and o.get('ty') == '&str' and o.get('bytes'):
+                            txt = bytes.fromhex(o['bytes']).decode('utf8', 'replace')
                             if len(txt) == 1:
                                 silver_letters.add(txt)
         printed = {}
@@ -480,6 +482,8 @@ def check_parsed_board_consistent(ctx, prog, prop, full=False):
         if t['k'] == 'call' and (prog.callee(t) or '').endswith('as std::iter::Iterator>::next') and not blk.get('cleanup'):
             depth = sum(1 for h, bs in loops.items() if bi in bs)
             dty = body['locals'][t['dst']['l']] if t.get('dst') and not t['dst']['p'] else ''
+            if depth == 0:
+                continue           # a `next()` outside the loops (e.g. taking the header section first) drives no loop
             sites.append((depth, bi, t, dty))
     sites.sort(key=lambda x: (x[0], x[1]))
     ok = len(sites) == 2 and sites[0][0] == 1 and sites[1][0] == 2 and 'char' in sites[1][3] and 'str' in sites[0][3]
@@ -968,3 +972,45 @@ def check_cell_table(ctx, prog, rule):
         q, combo, c, want = lst[0]
         ctx.finding(rule, 'Display for GameState', 'cell:%s' % key, '%d cells wrong, e.g. %s holding %s prints %r (expected %r)'
                     % (len(lst), G.name(q), combo, c, want))
+
+
+def parse_printed_text(prog, gold=True):
+    """(interpreter, value returned by <GameState as FromStr>::from_str, reason): the parser's MIR interpreted on the text the
+    printer writes for an arbitrary board with `gold` to move (square letters symbolic, the move number any digits)."""
+    from . import summaries
+    dfn = find_impl(prog, 'std::fmt::Display', 'engine::GameState', 'fmt')
+    ffn = find_impl(prog, 'std::str::FromStr', 'engine::GameState', 'from_str')
+    if dfn is None or ffn is None:
+        return None, None, 'no Display / FromStr for GameState'
+    I = inputs.make_interp(prog, fuel=40000000)
+    I.strict_unknown = False
+    try:
+        skel, why = printer_skeleton(prog, I, dfn, inputs.play_state(prog, gold, 0))
+    except Undecided as e:
+        return None, None, 'cannot follow the printer: %s' % e
+    if skel is None:
+        return None, None, why
+    chars = []
+    for c in skel:
+        if isinstance(c, str):
+            chars.append(BV.const(ord(c), 32))
+        elif c[0] == 'N':
+            chars.append(BV.const(ord('7'), 32))
+        else:
+            chars.append(Term('tok', ('L%d' % c[1],), 32, 32, 122))
+    st = State({})
+    I.memo.clear()
+    try:
+        r, _ = I.call_fn(ffn, [inputs.ref_to(I, st, 's', summaries.text_value(chars))], st)
+    except Undecided as e:
+        return None, None, 'cannot interpret the parser on the printed text: %s' % e
+    return I, r, None
+
+
+def ok_leaves(v, gate=C1):
+    """[(gate, value)] of the Ok(..) leaves of a Result-valued Ite tree"""
+    if isinstance(v, Ite):
+        return ok_leaves(v.a, B.band(gate, v.c)) + ok_leaves(v.b, B.band(gate, B.bnot(v.c)))
+    if isinstance(v, Enum) and v.var == 0 and v.fields:
+        return [(gate, v.fields[0])]
+    return []
